@@ -841,7 +841,7 @@ class Shelxfile():
             except IndexError:
                 pass
             # Prevent wrapping long lines with \n breaks by splitting first:
-            line = "".join([wrap_line(x) for x in str(line).split("\n")])
+            line = "\n".join([wrap_line(x) for x in str(line).split("\n")])
             resl.append(line)
         return "\n".join(resl)
 
